@@ -333,6 +333,51 @@ def canon(t):
             return ("const", False)      # the properties speak about paths given as strings: a str is not os.PathLike
         if k == "call" and x[1] == ("global", "getattr") and len(x[2]) == 3 and x[2][1] == ("const", "__fspath__") and x[2][2][0] == "const":
             return x[2][2]
+        if k == "idx" and x[1][0] in ("tuple", "list") and isinstance(x[2], int) and x[2] < len(x[1][1]) \
+                and not any(e[0] == "starred" for e in x[1][1]):
+            return x[1][1][x[2]]          # (a, b)[0]
+        if k == "call" and x[1] == ("global", "zip") and len(x[2]) >= 2 and not x[3] \
+                and all(a[0] in ("tuple", "list") and not any(e[0] == "starred" for e in a[1]) for a in x[2]) \
+                and len(set(len(a[1]) for a in x[2])) == 1:
+            # zip of literal sequences of one length: the rows written out
+            return ("tuple", tuple(("tuple", tuple(a[1][i] for a in x[2])) for i in range(len(x[2][0][1]))))
+        if k == "comp" and len(x[3]) == 1 and not x[3][0][2] and x[3][0][1][0] in ("tuple", "list") and 0 < len(x[3][0][1][1]) <= 16 \
+                and not any(e[0] == "starred" for e in x[3][0][1][1]):
+            # a comprehension over a literal sequence: its elements written out
+            var = ("bound", x[3][0][0][1])
+            els = [canon(subst(x[2], lambda y, e=e: e if y == var else None)) for e in x[3][0][1][1]]
+            if x[1] == "dict":
+                if all(e[0] == "tuple" and len(e[1]) == 2 for e in els):
+                    return ("dict", tuple((e[1][0], e[1][1]) for e in els))
+            else:
+                return ("set" if x[1] == "set" else "list", tuple(els))
+        path_ = None
+        if k == "call" and len(x[2]) == 1 and not x[3]:
+            if x[1][0] == "keyfn" and x[1][1] == "attr" and isinstance(x[1][2], str):
+                path_ = x[1][2]
+            elif x[1][0] == "call" and x[1][1] in (("global", "operator.attrgetter"), ("global", "attrgetter")) and len(x[1][2]) == 1 \
+                    and not x[1][3] and x[1][2][0][0] == "const" and isinstance(x[1][2][0][1], str):
+                path_ = x[1][2][0][1]
+        if path_ is not None:
+            # operator.attrgetter("a.b")(obj) is obj.a.b
+            out = x[2][0]
+            for part in path_.split("."):
+                out = ("global", out[1] + "." + part) if out[0] == "global" else ("attr", out, part)
+            return out
+        if k == "call" and x[1] in (("global", "list"), ("global", "tuple")) and len(x[2]) == 1 and not x[3] \
+                and x[2][0][0] in ("tuple", "list") and not any(e[0] == "starred" for e in x[2][0][1]):
+            return ("list" if x[1][1] == "list" else "tuple", x[2][0][1])        # list((a, b)) is [a, b]
+        if k == "call" and x[1] == ("global", "map") and len(x[2]) == 2 and not x[3] and x[2][0][0] in ("global", "lambda", "keyfn"):
+            # map(f, xs) is (f(x) for x in xs)
+            used = set(y[1] for y in walk(x) if y[0] == "bound")
+            n = 0
+            while "$%d" % n in used:
+                n += 1
+            var = ("bound", "$%d" % n)
+            if x[2][0][0] == "global":
+                kind_, it_, d_ = dict_iter(x[2][1])
+                if kind_ is None or kind_ == "keys":
+                    return ("comp", "gen", ("call", x[2][0], (var,), ()), ((("names", var[1]), it_, ()),))
         if k == "call" and x[1] == ("global", "dict") and len(x[2]) == 1 and not x[3] and x[2][0][0] in ("list", "tuple") \
                 and x[2][0][1] and all(e[0] == "tuple" and len(e[1]) == 2 for e in x[2][0][1]):
             return ("dict", tuple((e[1][0], e[1][1]) for e in x[2][0][1]))      # dict([(k, v), ...]) written out
@@ -480,6 +525,8 @@ def phi_form(t):
 def bool_form(t):
     """a term used only for its truth value: conditional expressions over boolean constants (the decision tree of an inlined
     predicate helper) become and/or/not"""
+    if t[0] == "call" and t[1] == ("global", "bool") and len(t[2]) == 1 and not t[3]:
+        return bool_form(t[2][0])        # bool(x) has the truth value of x
     if t[0] != "ifexp":
         return t
     c, a, b = bool_form(t[1]), bool_form(t[2]), bool_form(t[3])
@@ -636,7 +683,11 @@ def dict_iter(it):
 class Extractor(object):
     """Run over one FunctionDef; result: .events (ordered), .env_at_exit, .params"""
 
-    def __init__(self, func_node, const_resolver=None, inliner=None, parent=None, init_env=None, depth=0):
+    def __init__(self, func_node, const_resolver=None, inliner=None, parent=None, init_env=None, depth=0, grename=None,
+                 self_consts=None):
+        self.grename = grename      # spelling of module-level names of a body inlined from another module
+        # (name of the analysed method's self, lookup of class-level constants seen through it)
+        self.self_consts = self_consts if self_consts is not None else (parent.self_consts if parent is not None else None)
         self.func = func_node
         self.inliner = inliner
         self.parent = parent
@@ -655,6 +706,7 @@ class Extractor(object):
             self.locals_alloc = parent.locals_alloc
             self.loop_pre = parent.loop_pre
             self.loop_guards = parent.loop_guards
+        self._yield_to = None        # (for statement, caller's environment) while a generator helper is run in place of the loop
         self._exit_envs = {}
         self.return_values = []      # inlined callee: (value, guards relative to the call) per return statement
         self._nobreak = {}
@@ -685,11 +737,26 @@ class Extractor(object):
         self._env_loop_len = len(env_loops)
         self.falls_through, self.env_end = self.block(self.func.body, env, env_guards, env_loops)
         in_loop = any(x[2] for x in self.return_values)
-        exits = [(v, gs) for v, gs, _ in self.return_values]
+        exits = [(x[0], x[1]) for x in self.return_values]
         if self.falls_through:
             exits.append((("const", None), tuple(self._last_block_guards[n0:])))
         if not exits:
             return ("const", None)
+        if in_loop and len(exits) == 2 and len(self.return_values) >= 1:
+            # ``for x in coll: if test(x): return x`` followed by ``return d``: the first element satisfying the test, else d -
+            # next((x for x in coll if test(x)), d)
+            found = [x for x in self.return_values if x[2]]
+            other = [e for e in exits if e != (found[0][0], found[0][1])] if len(found) == 1 else []
+            if len(found) == 1 and len(other) == 1 and not other[0][1] and len(found[0][3]) == 1 and len(found[0][1]) == 1 \
+                    and found[0][1][0][1] is True:
+                lid, coll = found[0][3][0]
+                el = ("elem", coll, lid)
+                if found[0][0] == el and not contains(other[0][0], lambda y: y == el):
+                    var = ("bound", "$0")
+                    test = subst(found[0][1][0][0], lambda y: var if y == el else None)
+                    if not contains(test, lambda y: y[0] in ("carried",) or (y[0] == "elem" and y[2] == lid)):
+                        gen = ("comp", "gen", var, ((("names", "$0"), coll, (test,)),))
+                        return ("call", ("global", "next"), (gen, other[0][0]), ())
         # guards that hold on every normal exit hold in the caller after the call (``if bad: raise`` in a checking helper)
         common = [g for g in exits[0][1] if all(g in e[1] for e in exits[1:])]
         self.parent._pending_guards.extend(g for g in common if g not in self.parent._pending_guards)
@@ -705,6 +772,14 @@ class Extractor(object):
                 uniq.append(v)
         if len(uniq) == 1:
             return uniq[0]
+        handled = [(v, gs) for v, gs in exits if gs and gs[0][0][0] == "exc" and gs[0][1] is True]
+        if handled and len(handled) < len(exits):
+            # a return inside an exception handler: taken when the exception occurred, the other exits when it did not
+            exc = handled[0][1][0][0]
+            yes = [(v, gs[1:]) for v, gs in handled if gs[0][0] == exc]
+            no = [(v, gs) for v, gs in exits if not (gs and gs[0] == (exc, True))]
+            if yes and no:
+                return ("ifexp", exc, cls._decision(yes, chain_ok), cls._decision(no, chain_ok))
         first = exits[0][1]
         if first and all(gs and gs[0][0] == first[0][0] for _, gs in exits):
             test = first[0][0]
@@ -815,18 +890,27 @@ class Extractor(object):
                 return ("undef", node.id)
             if node.id in ("True", "False", "None"):
                 return ("const", {"True": True, "False": False, "None": None}[node.id])
-            return ("global", node.id)
+            if self.const_resolver is not None and self.grename is None:
+                # a module-level constant introduced after the pinned tree (a literal given a name): its value
+                cv = self._simple_const(self.const_resolver(node.id))
+                if cv is not None:
+                    return cv
+            return ("global", self.grename(node.id) if self.grename is not None else node.id)
         if isinstance(node, ast.Attribute):
             base = E(node.value)
             if base[0] == "global":
                 return ("global", base[1] + "." + node.attr)
+            if self.self_consts is not None and base == ("param", self.self_consts[0]) and isinstance(node.ctx, ast.Load):
+                cv = self.self_consts[1](node.attr)
+                if cv is not None:
+                    return cv
             if self.inliner is not None and self.depth < 2 and isinstance(node.ctx, ast.Load):
                 # a property the rules do not know (introduced after the pinned tree): its body in place of the access
                 tgt = self.inliner(("property", base, node.attr), [], ())
                 if tgt is not None:
-                    fn_node, binding, label = tgt
+                    fn_node, binding, label = tgt[:3]
                     sub = Extractor(fn_node, const_resolver=self.const_resolver, inliner=self.inliner, parent=self, init_env=binding,
-                                    depth=self.depth + 1)
+                                    depth=self.depth + 1, grename=(tgt[3] if len(tgt) > 3 else self.grename))
                     root = self
                     while root.parent is not None:
                         root = root.parent
@@ -847,10 +931,22 @@ class Extractor(object):
             args = []
             for a in node.args:
                 if isinstance(a, ast.Starred):
-                    args.append(("starred", E(a.value)))
+                    sv = E(a.value)
+                    if sv[0] == "tuple" and not any(x[0] == "starred" for x in sv[1]):
+                        args.extend(sv[1])          # f(*(a, b)) is f(a, b)
+                    else:
+                        args.append(("starred", sv))
                 else:
                     args.append(E(a))
-            kws = tuple((k.arg or "**", E(k.value)) for k in node.keywords)
+            kws = []
+            for k in node.keywords:
+                if k.arg is None:
+                    spliced = self._splice_kwargs(k.value, E)
+                    if spliced is not None:
+                        kws.extend(spliced)       # f(**{"a": 1}) / f(**OPTIONS) with a constant table is f(a=1)
+                        continue
+                kws.append((k.arg or "**", E(k.value)))
+            kws = tuple(kws)
             t = ("call", func, tuple(args), kws)
             if func == ("global", "getattr") and len(args) == 2 and not kws and args[1][0] == "const" and isinstance(args[1][1], str):
                 return ("attr", args[0], args[1][1])      # getattr(x, "name") is x.name
@@ -866,9 +962,9 @@ class Extractor(object):
             if self.inliner is not None and self.depth < 2:
                 tgt = self.inliner(func, args, kws)
                 if tgt is not None:
-                    fn_node, binding, label = tgt
+                    fn_node, binding, label = tgt[:3]
                     sub = Extractor(fn_node, const_resolver=self.const_resolver, inliner=self.inliner, parent=self, init_env=binding,
-                                    depth=self.depth + 1)
+                                    depth=self.depth + 1, grename=(tgt[3] if len(tgt) > 3 else self.grename))
                     root = self
                     while root.parent is not None:
                         root = root.parent
@@ -973,6 +1069,12 @@ class Extractor(object):
             return v
         if isinstance(node, ast.Yield):
             v = E(node.value) if node.value else ("const", None)
+            if self._yield_to is not None:
+                # the generator is being run in place of ``for <target> in gen(...): <body>``: the body, here
+                for_stmt, caller_env = self._yield_to
+                self.parent.bind(for_stmt.target, v, caller_env, guards, loops, for_stmt)
+                self.parent.block(for_stmt.body, caller_env, guards, loops)
+                return ("const", None)
             self.emit("yield", None, v, guards, loops, node)
             return ("unknown", "yield")
         return ("unknown", type(node).__name__)
@@ -1097,6 +1199,33 @@ class Extractor(object):
         if any(r[0] == "starred" for r in rows) or len(rows) > 12 or not rows:
             return None
         return rows
+
+    def _splice_kwargs(self, node, E):
+        if isinstance(node, ast.Name) and self.const_resolver is not None and node.id not in self.local_names and self.grename is None:
+            v = self.const_resolver(node.id)
+            if isinstance(v, dict) and v and all(isinstance(k, str) for k in v):
+                out = []
+                for k, x in v.items():
+                    t = self._simple_const(x) if x is not None else ("const", None)
+                    if t is None:
+                        return None
+                    out.append((k, t))
+                return out
+            return None
+        if isinstance(node, ast.Dict) and all(isinstance(k, ast.Constant) and isinstance(k.value, str) for k in node.keys):
+            return [(k.value, E(v)) for k, v in zip(node.keys, node.values)]
+        return None
+
+    @staticmethod
+    def _simple_const(v):
+        simple = (str, int, float, bool, type(None))
+        if v is None:
+            return None          # (the resolver's "not one of those")
+        if isinstance(v, simple):
+            return ("const", v)
+        if isinstance(v, (tuple, list)) and v and all(isinstance(x, simple) for x in v) and len(v) <= 16:
+            return ("tuple" if isinstance(v, tuple) else "list", tuple(("const", x) for x in v))
+        return None
 
     def _table_rows(self, name):
         """the rows of a module-level table introduced after the pinned tree, as terms (or None): strings, numbers, None, type
@@ -1225,7 +1354,8 @@ class Extractor(object):
             if self.parent is not None:
                 # inlined callee: not a return of the function under analysis; the value is bound, under the guards of the
                 # return statement, exactly as an assignment to a result variable would be
-                self.return_values.append((v, tuple(guards[self._env_guard_len:]), len(loops) > self._env_loop_len))
+                self.return_values.append((v, tuple(guards[self._env_guard_len:]), len(loops) > self._env_loop_len,
+                                           tuple(loops[self._env_loop_len:])))
                 self.emit("bind", ("bound", "<return of %s>" % self.func.name), v, guards, loops, s, extra="inlined-return")
                 return False, None, ()
             self.emit("return", None, v, guards, loops, s)
@@ -1273,6 +1403,32 @@ class Extractor(object):
                 return True, env_b, pg + ((test, False),)
             return False, None, ()
         if isinstance(s, (ast.For, ast.While)):
+            if isinstance(s, ast.For) and not s.orelse and isinstance(s.iter, ast.Call) and self.inliner is not None and self.depth < 2 \
+                    and not any(isinstance(a, ast.Starred) for a in s.iter.args) and not self._jumps_of(s.body) \
+                    and not any(isinstance(n, ast.Return) for x in s.body for n in ast.walk(x)) \
+                    and not (self._assigned_names(s.body) - self._assigned_names([ast.Assign(targets=[s.target], value=ast.Constant(None))])):
+                # ``for x in helper(...)`` where helper is a generator the rules do not know: the helper's body with the loop
+                # body in place of every yield
+                n_ev, counters = len(self.events), dict(self._counters)
+                func = E(s.iter.func)
+                args = [E(a) for a in s.iter.args]
+                kws = tuple((k.arg or "**", E(k.value)) for k in s.iter.keywords)
+                tgt = self.inliner(("generator", func), args, kws)
+                if tgt is not None:
+                    fn_node, binding, label = tgt[:3]
+                    sub = Extractor(fn_node, const_resolver=self.const_resolver, inliner=self.inliner, parent=self, init_env=binding,
+                                    depth=self.depth + 1, grename=(tgt[3] if len(tgt) > 3 else self.grename))
+                    env = dict(env)
+                    sub._yield_to = (s, env)
+                    root = self
+                    while root.parent is not None:
+                        root = root.parent
+                    root.inlined.append(label)
+                    sub.run_inlined(guards, loops)
+                    return True, env, ()
+                del self.events[n_ev:]
+                self._counters.clear()
+                self._counters.update(counters)
             if isinstance(s, ast.For) and not s.orelse:
                 elems = self._literal_elements(s, env, guards, loops)
                 if elems is not None:
@@ -1410,8 +1566,8 @@ class Extractor(object):
         return True, env, ()
 
 
-def extract(func_node, inliner=None, const_resolver=None):
-    return Extractor(func_node, inliner=inliner, const_resolver=const_resolver)
+def extract(func_node, inliner=None, const_resolver=None, self_consts=None):
+    return Extractor(func_node, inliner=inliner, const_resolver=const_resolver, self_consts=self_consts)
 
 
 # ---- guard helpers -------------------------------------------------------------------------------------
